@@ -487,14 +487,18 @@ Definition as_list (c : cell) : res (nat * nat) :=
 Definition get_list_len (addr : nat) (s : basic) : res nat :=
   do c <- get_from_block BData addr s ; do la <- as_list c ; Ok (fst la).
 
-(* [index] is usize::from(item_index) *)
-Definition get_list_item (list_addr index : nat) (s : basic) : res (option nat) :=
+(* item_index = SimpleNumber::Integer(z): a negative index is Ok(None); otherwise
+   index = usize::from(item_index) and an index >= len is Err(InvalidListItemIndex) *)
+Definition get_list_item (list_addr : nat) (z : Z) (s : basic) : res (option nat) :=
   do c <- get_from_block BData list_addr s ;
   do la <- as_list c ;
-  if fst la <=? index then Err E_list
+  if (z <? 0)%Z then Ok None
   else
-    do it <- get_from_block BData (list_addr + 1 + index) s ;
-    match it with CListItem i => Ok (Some i) | _ => Err E_not_basic end.
+    let index := usize_of_int z in
+    if fst la <=? index then Err E_list
+    else
+      do it <- get_from_block BData (list_addr + 1 + index) s ;
+      match it with CListItem i => Ok (Some i) | _ => Err E_not_basic end.
 
 Definition get_list_item_with_symbol (list_index : nat) (sym : N) (s : basic) : res (option nat) :=
   do c <- get_from_block BData list_index s ;
